@@ -4,8 +4,8 @@ LEVEL = "model_checking"
 TECHNIQUE = "CBMC bounded symbolic execution of the real timer code: inductive step obligations from symbolic pre-states under a representation invariant (min-heap, expiry, persist re-arm, deadline computation, common-timeout queue) plus concrete-shape runs through event_base_loop on a constructed base with a virtual clock"
 UNITS = ["event.c", "minheap-internal.h", "evmap.c"]
 FUNCTIONS = ['min_heap_push_', 'min_heap_pop_', 'min_heap_erase_', 'min_heap_adjust_', 'min_heap_shift_up_', 'min_heap_shift_up_unconditional_', 'min_heap_shift_down_', 'min_heap_top_', 'min_heap_elt_is_top_', 'event_add', 'event_add_nolock_', 'event_pending', 'timeout_next', 'timeout_process', 'event_del_nolock_', 'event_active_nolock_', 'event_queue_insert_timeout', 'event_queue_remove_timeout', 'event_persist_closure', 'gettime']
-BOUNDS = '(a) ANY valid min-heap of n<=6 (thorough 7) elements, n enumerated, deadlines: tv_sec any 64-bit value, tv_usec<10^6; one operation with solver-chosen victim/new deadline.  (b)(d) one event; now, timeout, previous deadline, interval: tv_sec<2^31, tv_usec<10^6, all solver-chosen.  (c) ANY valid heap of n<=3 (thorough 4) pending one-shot timers of one priority, solver-chosen deadlines and now.  (f) a one-shot and a persistent timer through the real event_base_loop: 4 (thorough 13) fixed call prefixes of length 2-3 from {add 0/1/2 s, del, remove_timer, loop with clock +0/+2 s} followed by ANY one of 26 calls, durations from {0,1 s,2 s}.'
-OUT = '(e) common-timeout queues: not decided - struct event keeps {min_heap_idx, ev_next_with_common_timeout} in a union and cbmc does not fold reads after both members were written (symex does not terminate: measured); the model/harness support exists (K_CTIMER).  Histories longer than 4 calls and symbolic durations through the loop (covered only by the inductive steps); heaps > 7; timers that are also I/O events in the expiry step; several priorities in the expiry step; evutil_time.c (the clock is the virtual clock vp_now); tv_usec >= 10^6 inputs; heap growth (realloc) - capacity is pre-reserved'
+BOUNDS = '(a) ANY valid min-heap of n<=6 (thorough 7) elements, n enumerated, deadlines: tv_sec any 64-bit value, tv_usec<10^6; one operation with solver-chosen victim/new deadline.  (b)(d) one event; now, timeout, previous deadline, interval: tv_sec<2^31, tv_usec<10^6, all solver-chosen.  (c) ANY valid heap of n<=3 (thorough 4) pending one-shot timers of one priority, solver-chosen deadlines and now.  (g) re-add of a timer that is already active by timeout: step with symbolic first deadline/now/new timeout, and through the real loop (the callback of timer A re-adds timer B; 20/21 ms, +5 s).  (e) two common-timeout timers (1 s / 2 s queues): 2 (thorough 13) call prefixes then ANY of 26 calls.  (f) a one-shot and a persistent timer through the real event_base_loop: 4 (thorough 13) fixed call prefixes of length 2-3 from {add 0/1/2 s, del, remove_timer, loop with clock +0/+2 s} followed by ANY one of 26 calls, durations from {0,1 s,2 s}.'
+OUT = 'common-timeout queues only through histories of <=4 calls over 2 events with 1 s/2 s queues (no symbolic-duration step obligation for common_timeout_callback / insert_common_timeout_inorder); histories longer than 4 calls and symbolic durations through the loop (covered only by the inductive steps); heaps > 7; timers that are also I/O events in the expiry step; several priorities in the expiry step; evutil_time.c (the clock is the virtual clock vp_now); tv_usec >= 10^6 inputs; heap growth (realloc) - capacity is pre-reserved'
 TEXT = "Inductive step obligations on the real code: (a) every min-heap operation preserves heap order, index consistency and membership and keeps the minimum on top, from ANY valid heap; (b) event_add computes deadline == now+timeout (normalised) / the absolute time, the timer is pending, event_pending reports it, the loop's wait is max(0,deadline-now); (c) from ANY valid heap and any clock value timeout_process activates exactly the timers with deadline<=now (never early, never late), each once, in non-decreasing deadline order, leaves the rest pending in a valid heap, and timeout_next returns exactly max(0, earliest-now); (d) event_persist_closure re-arms at previous deadline+interval, or now+interval when that is past or the activation was not a timeout, exactly once.  Induction over loop iterations gives the unbounded claim for heap timers within the value bounds."
 NOTE = "Typed distinct event objects (not arrays, not realloc'ed memory) keep heap-slot pointers a small case split. The common-timeout branches are cut with assert(false);assume(false) in get_common_timeout_list: the solver proves they are never entered by non-common timers. Reference arithmetic on timevals uses carry arithmetic (no 64-bit multiplications)."
 ASSUMPTIONS = ['heap representation invariant: p[i]->min_heap_idx==i and !(parent>child) (the one event_base_assert_ok_nolock_ checks)', 'expiry pre-state: timers are EVLIST_INIT|EVLIST_TIMEOUT one-shot non-I/O events of priority 0, event_count==n', 'monotonic clock = vp_now (evutil_gettime_monotonic_ stub), gettimeofday = constant', 'constructed event_base (env/evbase.h)', 'allocation does not fail']
@@ -55,7 +55,7 @@ def _common(prefix, kinds=("K_CTIMER", "K_CTIMER"), tag="common", expect_cb=True
     L = len(prefix) + 1
     return _fin(dict(name="%s_%s_pre%s" % (tag, "_".join(k[2:].lower() for k in kinds), "_".join(str(x) for x in prefix)),
                 harness="C02_statemachine.c", entry="harness_history",
-                defines=["C02_KIND0=" + kinds[0], "C02_KIND1=" + kinds[1], "C02_LEN=%d" % L, "C02_PREFIX=" + ",".join(str(x) for x in prefix)] + (["C02_EXPECT_CB"] if expect_cb else []),
+                defines=["C02_KIND0=" + kinds[0], "C02_KIND1=" + kinds[1], "C02_LEN=%d" % L, "C02_PREFIX=" + ",".join(str(x) for x in prefix), "C02_NOUNION"] + (["C02_EXPECT_CB"] if expect_cb else []),
                 unwind=10, unwindset=["run:%d" % (L + 2)], instrument=_PIN_HIST, timeout=900, mem_gb=2, cbmc=["--object-bits", "12", "--no-standard-checks"],
                 desc="(e) common-timeout timers (%s): history %s (1/2 = add 1 s/2 s on event 0, 13/14 on event 1, 3/15 del, 24/25 loop +0/+2 s) then ANY call, vs the reference model: fires once at the deadline, FIFO within a queue, cancel/replace, internal timer re-armed (event_base_assert_ok_nolock_ live)" % ("+".join(kinds), list(prefix))))
 
@@ -69,6 +69,14 @@ def obligations(tier):
     for bt in (1, 0):
         obs.append(_tm("persist_%s" % ("timeout" if bt else "other"), "harness_persist", "(d) event_persist_closure re-arm: prev deadline, interval, now symbolic; activation by %s" % ("EV_TIMEOUT" if bt else "another result while the timer is pending"),
                        defines=["C01_BY_TIMEOUT=%d" % bt]))
+    # re-add replaces the firing: (1) step with symbolic deadlines, (2) through the real loop (A's callback re-adds B)
+    _pin_readd = [sum([["--restrict-function-pointer", x] for x in ("event_base_loop.function_pointer_call.7/vp_be_dispatch",
+                   "event_process_active_single_queue.function_pointer_call.2/ra_cb,rb_cb", "event_persist_closure.function_pointer_call.2/rb_cb")], [])]
+    for pz in (0, 1):
+        obs.append(_tm("readd_step_%s" % ("persist" if pz else "oneshot"), "harness_readd_step", "re-add of a timer that is already active by timeout (callback not yet run): stale firing dropped, pending once at now+tv; first deadline, now, tv solver-chosen",
+                       defines=["C01_READD_PERSIST=%d" % pz]))
+        obs.append(_tm("readd_loop_%s" % ("persist" if pz else "oneshot"), "harness_readd_loop", "timers A,B expire in one iteration, A's callback re-adds B (5 s): B does not fire at the old deadline, fires exactly once at the new one (real event_base_loop)",
+                       defines=["C01_READD_PERSIST=%d" % pz], instrument=_NO_COMMON + _pin_readd))
     # (f) histories through the real event_base_loop: a one-shot timer (event 0: 1 = add 0 s, 2 = add 1 s, 3 del, 9 remove_timer) and a
     # persistent timer (event 1: 13 = add 1 s, 14 = add 2 s, 15 del, 21 remove_timer), 24/25 = loop iteration with the clock +0/+2 s;
     # the listed calls, then ANY call (26 alternatives, solver-chosen), compared with the reference model after every call:
@@ -80,7 +88,12 @@ def obligations(tier):
         o = _common(pre, kinds=("K_TIMER", "K_TIMER_P"), tag="shape", expect_cb=ecb)
         o["desc"] = "(f) real event_base_loop histories over a one-shot and a persistent timer: calls %s then ANY call vs the reference model (fires exactly once iff due and not cancelled/replaced; persist re-arm; counters; assert_ok live)" % (list(pre),)
         obs.append(o)
-    # (e) common-timeout histories (_common) are NOT scheduled: struct event keeps {min_heap_idx, ev_next_with_common_timeout}
-    # in a union; after event_assign wrote the first and the queue insert the second member, cbmc's simplifier no longer folds
-    # reads of the list links and symex does not terminate (measured: 4 x 320 s, no result).  See OUT.
+    # (e) common-timeout queues (1 s and 2 s queues) through the real API and loop, union-free layout of struct event
+    # (env/event_struct_nounion.h: cbmc cannot fold reads of ev_timeout_pos once both union members were written)
+    pres = [(1, 13), (2, 13)] if tier == "quick" else [(1, 13), (13, 1), (2, 13), (1, 14), (14, 2), (1, 13, 3), (1, 13, 24), (2, 13, 25), (1, 1), (1, 25), (1, 13, 1)]
+    for pre in pres:
+        obs.append(_common(pre))
+    if tier != "quick":
+        obs.append(_common((1, 13), kinds=("K_CTIMER", "K_TIMER")))
+        obs.append(_common((13, 1), kinds=("K_CTIMER", "K_TIMER_P")))
     return obs
